@@ -3,7 +3,7 @@ import MindsVerif.Model.ModelJoin
 
 input (space separated tokens; strings are `~` + percent-encoded text):
   line    ::= nops operand* where using
-  operand ::= (tab|mod|sub) nparts part* alias jtype on target ninner
+  operand ::= (tab|mod|sub) nparts part* alias jtype on target ninner integ
   alias   ::= - | A n part*
   on,where::= - | expr
   target  ::= - | str
@@ -98,7 +98,9 @@ def rdOperand : List String → Option (Operand × List String)
     let (ni, ts) ← (match ts with
       | t :: ts => t.toNat?.map fun n => (n, ts)
       | [] => none)
-    pure ({ kind := kind, parts := parts, alias := alias, jtype := jt, on := on, target := tg, inner := ni }, ts)
+    let (ig, ts) ← rdStr ts
+    pure ({ kind := kind, parts := parts, alias := alias, jtype := jt, on := on, target := tg, inner := ni,
+            integ := ig }, ts)
   | _ => none
 
 def rdPair (ts : List String) : Option ((String × String) × List String) := do
